@@ -52,7 +52,11 @@ func (h ErrorHandler) ServeHTTP(w http.ResponseWriter, r *http.Request) (int, er
 
 	if err != nil {
 		errMsg := fmt.Sprintf("[ERROR %d %s] %v", status, r.URL.Path, err)
-		if h.Debug {
+		// Only a status of 400 or more asks for an error response; with a
+		// lower one the response is written already (0) or left to the
+		// handlers before us, and writing into it would commit the header
+		// again and garble the body, so the error can only be logged.
+		if h.Debug && status >= 400 {
 			// Write error to response instead of to log
 			w.Header().Set("Content-Type", "text/plain; charset=utf-8")
 			w.WriteHeader(status)
